@@ -220,6 +220,21 @@ Theorem C03_eot_prediction_consume :
 Proof. exact eot_prediction_consume. Qed.
 Print Assumptions C03_eot_prediction_consume.
 
+(* non-vacuity of the random pass: four entries, shuffle order [1; 4; 3] while entry 2 plays:
+   three blocks play 1, 4, 3 in that order and use the order up *)
+Example C03_random_pass_example :
+  let w := run_world shuf_concrete 10 (init_world 50 [Playable; Playable; Playable; Playable]
+                                         [Some 900; Some 800; Some 700; Some 600] [] None None)
+             [Add [0; 1; 2; 3] None; SetMode 1 true; SetMode 1 false; SetMode 1 true; Play (Some 2);
+              Deliver; Deliver; Deliver; Deliver] in
+  let w' := run_world shuf_concrete 10 w (blocks 3) in
+  option_map tlid (current w) = Some 2 /\ map tlid (shuffled w) = [1; 4; 3] /\ random w = true
+  /\ map (fun e => match e with EvStarted t => tlid t | _ => 0 end)
+         (filter (fun e => match e with EvStarted _ => true | _ => false end) (rev (events w'))) = [2; 1; 4; 3]
+  /\ shuffled w' = [].
+Proof. vm_compute. repeat split; reflexivity. Qed.
+Print Assumptions C03_random_pass_example.
+
 (* ---- The recorded known findings, as kernel-checked facts about the model (the model is the
    code line by line; the correspondence replays the same histories on the real Core).  Each
    exhibits a reachable settled state in which an announced track does not become current. *)
